@@ -27,6 +27,16 @@ def run(ctx, rep):
     rep.rule('R02.pos', 'index positions point at batch starts: writers and forms of Segment.last_index_position (end of log at load, + batch size at persist)', floor=2, analysis='A10')
     sf.check(ctx, rep, 'R02.pos', part_fields=(), seg_fields=('last_index_position',))
 
+    # ------------------------------------------------------------ R02.g the cache window: both slice bounds are relative to the first cached offset
+    rep.rule('R02.g', 'a poll served from the message cache takes cache[(start - first) .. min(len, end - first + 1)]: both bounds are relative to the offset of the first cached message', floor=2, analysis='A10 aggregate forms')
+    forms.check_aggregates(ctx, rep, 'R02.g', {rf.P + '::load_messages_from_cache': {'std::ops::Range': {
+        'start': '(start_offset - ::index(self.cache, 0).offset)',
+        'end': 'Ord::min(SmartCache::len(self.cache), ((end_offset - ::index(self.cache, 0).offset) + 1))'}}})
+
+    # ------------------------------------------------------------ R02.f what a flushed batch records (time bounds used by timestamp polls, offsets used by the rebuilder)
+    from props.c01 import batch_forms
+    batch_forms(ctx, rep, 'R02.f')
+
     # ------------------------------------------------------------ R02.e on-disk codecs agree field by field
     rep.rule('R02.e', 'on-disk codecs agree field by field: batch header and index entry are written and read at the same byte ranges under the same field names; sizes equal the layout', floor=8, analysis='A11')
     import wire
